@@ -1,4 +1,4 @@
-// A whole-swarm variant shared by C01, C03 and C11 (DESIGN §20): 2..4 real Nodes, fully meshed over simulated TCP,
+// A whole-swarm variant shared by C01, C03, C11, C23 and C24 (DESIGN §20): 2..4 real Nodes, fully meshed over simulated TCP,
 // store chunks and replicate them through the repository's own announce -> request -> chunk -> acknowledge flow while
 // connections are reset, pairs are partitioned and nodes crash and restart. The same invariants are evaluated on every
 // node after every operation; a run reports only the violations of the property it was started for (`focus`).
